@@ -102,3 +102,28 @@ def ev_index(path, pred, start=0):
 
 def awaits_between(path, i, j):
     return [e for e in path.events[i + 1:j] if e.kind == "await" or (e.kind in ("enter",) and False)]
+
+
+class same_class:
+    """Inline policy: while exploring a method, helper methods of the same class (through the MRO, repository classes
+    only) and module-level helpers of the same module are inlined, so extracting or inlining a helper does not change
+    what a rule sees.  Methods named in ``stop`` stay opaque (the rule inspects the call itself); models always take
+    precedence over inlining.  ``extra`` names are inlined wherever they are defined."""
+
+    def __init__(self, stop=(), extra=("from_ember_status",)):
+        self.stop, self.extra, self.root = set(stop), set(extra), None
+
+    def __call__(self, g, awaited):
+        if g.name in self.extra:
+            return True
+        if g.name in self.stop or self.root is None:
+            return False
+        r = self.root
+        if g.cls is not None and r.cls is not None:
+            try:
+                return g.cls in r.cls.mro() or r.cls in g.cls.mro()
+            except Exception:
+                return False
+        if g.cls is None:
+            return g.mod == r.mod
+        return False
